@@ -705,7 +705,12 @@ fn sx_path(p: &syn::Path) -> String {
     let mut o = String::from("(path");
     for s in &p.segments {
         o.push(' ');
-        o.push_str(&q(&s.ident.to_string()));
+        // generic arguments written on a segment (turbofish) are kept in the segment's text, without white space
+        let args: String = match &s.arguments {
+            syn::PathArguments::None => String::new(),
+            other => ts(other).chars().filter(|c| !c.is_whitespace()).collect::<String>().replace("::<", "<"),
+        };
+        o.push_str(&q(&format!("{}{}", s.ident, args)));
     }
     o.push(')');
     o
@@ -750,6 +755,15 @@ fn sx_pat(p: &syn::Pat) -> String {
             lit => format!("(plit {})", sx_lit(lit)),
         },
         syn::Pat::Paren(pp) => sx_pat(&pp.pat),
+        syn::Pat::Tuple(t) => {
+            let mut o = String::from("(ptuple");
+            for e in &t.elems {
+                o.push(' ');
+                o.push_str(&sx_pat(e));
+            }
+            o.push(')');
+            o
+        }
         syn::Pat::Reference(r) if r.mutability.is_none() => sx_pat(&r.pat),
         syn::Pat::Type(t) => sx_pat(&t.pat),
         other => format!("(unsupported {})", q(&format!("pat {}", ts(other)))),
@@ -951,6 +965,15 @@ fn sx_expr(e: &syn::Expr) -> String {
             o
         }
         syn::Expr::Tuple(t) if t.elems.is_empty() => "(unit)".into(),
+        syn::Expr::Tuple(t) => {
+            let mut o = String::from("(tuple");
+            for e in &t.elems {
+                o.push(' ');
+                o.push_str(&sx_expr(e));
+            }
+            o.push(')');
+            o
+        }
         syn::Expr::Struct(s) if s.qself.is_none() => {
             let mut o = format!("(struct {}", sx_path(&s.path));
             for f in &s.fields {
@@ -986,11 +1009,10 @@ fn sx_fn(attrs: &[syn::Attribute], sig: &syn::Signature, block: &syn::Block) -> 
                 o.push_str(&format!(" (p {} {})", q("self"), q(kind)));
             }
             syn::FnArg::Typed(t) => {
-                let name = match &*t.pat {
-                    syn::Pat::Ident(i) => i.ident.to_string(),
-                    other => format!("?{}", ts(other)),
-                };
-                o.push_str(&format!(" (p {} {})", q(&name), q(&ts(&t.ty))));
+                match &*t.pat {
+                    syn::Pat::Ident(i) => o.push_str(&format!(" (p {} {})", q(&i.ident.to_string()), q(&ts(&t.ty)))),
+                    other => o.push_str(&format!(" (pp {} {})", sx_pat(other), q(&ts(&t.ty)))),
+                }
             }
         }
     }
@@ -1017,11 +1039,15 @@ fn handle_ast(o: &mut Out, path: &str) {
     for item in &file.items {
         match item {
             syn::Item::Fn(f) => o.put("fn", &sx_fn(&f.attrs, &f.sig, &f.block)),
-            syn::Item::Impl(i) if i.trait_.is_none() => {
-                let ty = ts(&i.self_ty);
+            syn::Item::Impl(i) => {
+                let ty: String = ts(&i.self_ty).chars().filter(|c| !c.is_whitespace()).collect();
+                let key = match &i.trait_ {
+                    None => ty,
+                    Some((_, tr, _)) => format!("{} as {}", ty, ts(tr).chars().filter(|c| !c.is_whitespace()).collect::<String>()),
+                };
                 for it in &i.items {
                     if let syn::ImplItem::Fn(f) = it {
-                        o.put("method", &format!("{} @@ {}", ty, sx_fn(&f.attrs, &f.sig, &f.block)));
+                        o.put("method", &format!("{} @@ {}", key, sx_fn(&f.attrs, &f.sig, &f.block)));
                     }
                 }
             }
